@@ -169,6 +169,27 @@ def step (s : St) (w : List String) : St × String :=
     match s.r.string with
     | .ok (r', out) => ({ s with r := r' }, line "ok" out r' "ptr" alts)
     | x => (s, line "refused" [] s.r (resName x) alts)
+  | ["q", "load", len, dat] =>
+    match len.toNat?, parseHex dat with
+    | some l, some b =>
+      let free := cap - d.length
+      let k := Nat.min b.length (if l = 0 ∨ l ≥ free then free else l)
+      let alts : List Alt := if free = 0 then [(refR, d)] else [(s!"ok n={k} out=-", d ++ b.take k)]
+      match s.r.load l b with
+      | .ok (r', n) => ({ r := r', d := d ++ b.take n }, line s!"ok n={n}" [] r' (toString n) alts)
+      | x => (s, line "refused" [] s.r (resName x) alts)
+    | _, _ => (s, "bad-op")
+  | ["q", "save"] =>
+    let alts : List Alt := [(s!"ok n={d.length} out={toHex d}", [])]
+    match s.r.save with
+    | .ok (r', out) => ({ r := r', d := d.drop out.length }, line s!"ok n={out.length}" out r' (toString out.length) alts)
+    | x => (s, line "refused" [] s.r (resName x) alts)
+  -- C++ pipe<uint16_t> (mpt++/io.h) on top of io::queue: elements are two bytes, little endian on the wire of this driver
+  | ["xq", "elements"] =>
+    let alts : List Alt := [(okR (d.take (d.length / 2 * 2)), d)]
+    match s.r.xpeek 0 with
+    | .ok (r', out) => ({ s with r := r' }, line "ok" (out.take (out.length / 2 * 2)) r' (toString (out.length / 2)) alts)
+    | x => (s, line "refused" [] s.r (resName x) alts)
   -- C++ io::queue wrappers (mpt++/io_queue.cpp)
   | ["xq", "new", mx, off, fill] =>
     match mx.toNat?, off.toNat?, parseHex fill with
